@@ -1553,3 +1553,77 @@ def k_stalememo( ctx ):
             if not bad:
                 res.ok( src, fn, '%s: nothing it stores into the message is used to skip its own encoding' % qn, nontrivial=False )
     return res
+
+
+@rule( 'L-UNITS', props=( 'C01', 'C14' ), floor=6 )
+def l_units( ctx ):
+    """sizes the CIP tables count in 16-bit WORDS ( EPATH / Request_Path_Size, Application Reply Size of the Forward Open and Forward Close
+    replies ) are words on both sides - a producer and a parser that agree on octets still disagree with every other implementation.
+    Parser: each closure handed to a sub-machine as `limit=` returns its `size` field times two.  Producer: in every produce() a payload
+    that is kept to whole words ( `if len( x ) % 2: x += pad` or `assert len( x ) % 2 == 0` ) has its length used only as `len( x ) // 2`."""
+    res = Result( 'L-UNITS' )
+    n_lim = n_len = 0
+    for rel in ( 'server/enip/parser.py', 'server/enip/device.py', 'server/enip/logix.py' ):
+        src = ctx.src( rel )
+        # ---- parser side
+        limits = set()
+        for c in ast.walk( src.tree ):
+            if isinstance( c, ast.Call ):
+                for k in c.keywords:
+                    if k.arg == 'limit':
+                        limits |= { x.id for x in ast.walk( k.value ) if isinstance( x, ast.Name ) }
+        for f in ast.walk( src.tree ):
+            if not ( isinstance( f, ast.FunctionDef ) and f.name in limits and isinstance( src.parent.get( f ), ( ast.FunctionDef, ast.ClassDef )) ):
+                continue
+            rets = [ r for r in walk_no_nested( f ) if isinstance( r, ast.Return ) and r.value is not None ]
+            if not rets:
+                continue
+            for r in rets:
+                e = r.value
+                if isinstance( e, ast.Name ):
+                    ass = [ a for a in walk_no_nested( f ) if isinstance( a, ast.Assign ) and len( a.targets ) == 1 and isinstance( a.targets[0], ast.Name ) and a.targets[0].id == e.id ]
+                    if len( ass ) != 1:
+                        raise AnalysisError( '%s: %s assigned %d times' % ( f.name, e.id, len( ass )))
+                    e = ass[0].value
+                if 'size' not in txt( e ):
+                    continue
+                n_lim += 1
+                m = pmatch( e, '_s * 2' ) or pmatch( e, '2 * _s' ) or pmatch( e, '_s << 1' ) or pmatch( e, '_s + _s' )
+                if m is not None and 'size' in txt( m['_s'] ):
+                    res.ok( src, r, '%s ( limit of a sub-machine ): %s - the size field counts words, the limit is in octets' % ( f.name, norm_text( txt( e ))[:60] ))
+                else:
+                    res.bad( src, r, 'limit closure %s returns %s' % ( f.name, norm_text( txt( e ))[:60] ),
+                             'the size field counts 16-bit words ( CIP: Request_Path_Size / Application Reply Size ): the sub-machine has to be limited to twice as many octets, else a conformant message is parsed with half of its data and the rest is left to the enclosing grammar', func=src.qualname_of( f ))
+        # ---- producer side
+        for qn, defs in sorted( src.defs.items()):
+            if qn.split( '.' )[-1] != 'produce':
+                continue
+            for fn in defs:
+                if not isinstance( fn, ast.FunctionDef ):
+                    continue
+                worded = set()
+                for i in walk_no_nested( fn ):
+                    if isinstance( i, ast.If ):
+                        m = pmatch( i.test, 'len( _x ) % 2' )
+                        if m is not None and any( isinstance( b, ast.AugAssign ) and dotted( b.target ) == dotted( m['_x'] ) for b in i.body ):
+                            worded.add( txt( m['_x'] ))
+                    if isinstance( i, ast.Assert ):
+                        m = pmatch( i.test, 'len( _x ) % 2 == 0' )
+                        if m is not None:
+                            worded.add( txt( m['_x'] ))
+                for X in sorted( worded ):
+                    for c in walk_no_nested( fn ):
+                        if not ( isinstance( c, ast.Call ) and pmatch( c, 'len( _x )' ) is not None and txt( c.args[0] ) == X ):
+                            continue
+                        par = src.parent.get( c )
+                        if isinstance( par, ast.BinOp ) and isinstance( par.op, ast.Mod ):
+                            continue				# the evenness test itself
+                        n_len += 1
+                        if isinstance( par, ast.BinOp ) and par.left is c and (( isinstance( par.op, ast.FloorDiv ) and try_fold( par.right ) == 2 ) or ( isinstance( par.op, ast.RShift ) and try_fold( par.right ) == 1 )):
+                            res.ok( src, c, '%s: len( %s ) // 2 - the payload kept to whole words is counted in words' % ( qn, X ))
+                        else:
+                            res.bad( src, c, '%s: len( %s ) used as %s' % ( qn, X, norm_text( txt( par ))[:60] ),
+                                     'the payload is kept to whole 16-bit words because its size field counts words ( CIP ): announcing its length in octets tells every other implementation that twice the data follows', func=qn )
+    if n_lim < 3 or n_len < 3:
+        raise AnalysisError( 'L-UNITS: %d limit closures over a size field, %d word-counted payload lengths found' % ( n_lim, n_len ))
+    return res
